@@ -8,7 +8,7 @@ META = {
     "text": "Deductive (unbounded): generator.check_tree is verified from its AST for arity strings of any length (nested loop invariants, ghost stack of the binary "
             "nodes whose right child is missing): success <=> the Lukasiewicz condition (every proper prefix needs at least one more node, the whole string none), and on "
             "success every non-leaf node points to existing later nodes (left[k] = k+1, k < right[k] < n) -- which is the precondition under which node_to_string is verified "
-            "(C02). That the Lukasiewicz condition characterises the arity strings of unary-binary trees is the classical bridge lemma (assumed; the oracle of the bounded part "
+            "(C02). That the Lukasiewicz condition characterises the arity strings of unary-binary trees is the classical bridge lemma: proved in Lean 4 (lean/Bridge.lean, core library only, statement pinned) and re-checked by the Lean kernel on every run (if that fails it is listed as an assumption); the oracle of the bounded part "
             "enumerates by the same condition and is cross-checked against tree counts 1,1,2,4,9,21,51,127). The writers region of generate_equations is verified as well: every tree of a shape is written on exactly one physical line of "
             "orig_trees/extra_trees (the pprint width rule), into files truncated at the start of the call. Three regions of shape_to_functions are verified: the renumbering loop (the k-th 'a' of a nullary tuple becomes a<k>, "
             "nothing else changes), the assembly of the label array (position p receives the label of its arity class in order of appearance, for every loop index triple; "
@@ -49,8 +49,8 @@ def check(run):
         if st_ != "unsupported" and tag == "labels" and D.canary(run, "generation/generator.py", "shape_to_functions", mk) is False:
             raise RuntimeError("canary verified: engine vacuous on shape_to_functions [%s]" % tag)
     run.trust("pyvc", "z3 5.1.0")
-    run.assume("bridge lemma: need-counter validity <=> preorder arity sequence of exactly one unary-binary tree (classical; used by the oracle)",
-               "A-hash: PYTHONHASHSEED fixed to 0 in harness runs")
+    D.lean_bridge(run)
+    run.assume("A-hash: PYTHONHASHSEED fixed to 0 in harness runs")
     nshape = 9 if tier == "quick" else 11
     r = run.harness("rt_gen.py", {"mode": "shapes", "nmax": nshape, "ct_nmax": 8 if tier == "quick" else 10}, timeout=3000)
     fails = [f for f in r["failures"] if not ("check_tree" in f and len(f["check_tree"]) == 1)]
